@@ -375,6 +375,10 @@ func c05WebStream(c *Ctx, cliCases *[]*c05Case) {
 			c05Web(c, cs, handlers, cache)
 			c.Res.Count(canon+"web"+query, c05Removed)
 		}
+		// every output family through the CLI, nodecount around the built-in defaults and the entry count
+		if c.Pprof != "" && (k == 0 || c.Scale > 1) {
+			c05CLIGrid(c, r, canon, entries, k)
+		}
 		// CLI text reports on the same profile, nodecount around the limits and the entry count
 		if c.Pprof != "" {
 			ncs := []int{499, 500, 501, entries - 1, entries, 80}
@@ -386,5 +390,100 @@ func c05WebStream(c *Ctx, cliCases *[]*c05Case) {
 				c.Res.Hit("cli-big-profile-nodecount")
 			}
 		}
+	}
+}
+
+// ---------- CLI grid on profiles larger than every built-in default ----------
+
+// c05CLIMono runs ONE report (format, fractions, sort, granularity) through the CLI once per
+// nodecount setting in cs.Counts (c05Unset = option not given), checks every run against the
+// documented meaning of its settings (c05CLICheck -> Lean Trim model / Spec), and then the
+// metamorphic relation: the entries shown with a larger limit include those shown with a smaller
+// one, and "no limit" includes them all.
+func c05CLIMono(c *Ctx, cs *c05Case) {
+	subs := make([]*c05Case, len(cs.Counts))
+	results := make([]cliResult, len(cs.Counts))
+	done := make(chan int, len(cs.Counts))
+	sem := make(chan struct{}, 10)
+	for j, n := range cs.Counts {
+		sub := *cs
+		sub.Level, sub.Counts = "cli", nil
+		if n == c05Unset {
+			sub.NoNodeCount, sub.NodeCount = true, 0
+		} else {
+			sub.NoNodeCount, sub.NodeCount = false, n
+		}
+		subs[j] = &sub
+		go func(j int) {
+			sem <- struct{}{}
+			results[j] = runPprof(c, subs[j].Profile, subs[j].cliArgs, 7000+j)
+			<-sem
+			done <- j
+		}(j)
+	}
+	for range cs.Counts {
+		<-done
+	}
+	type shownAt struct {
+		nc   int
+		rows []string
+		sub  *c05Case
+	}
+	var shown []shownAt
+	before := len(c.Res.Findings)
+	for j, sub := range subs {
+		c05LastShown = nil
+		c05CLICheck(c, sub, results[j])
+		if c05LastShown != nil {
+			nc, _, _, _, _ := sub.eff(true)
+			if nc == 0 {
+				nc = 1 << 30
+			}
+			shown = append(shown, shownAt{nc, c05LastShown, sub})
+		}
+		c.Res.Hit("cligrid-format:" + cs.Format)
+	}
+	if len(c.Res.Findings) != before {
+		return
+	}
+	for _, a := range shown {
+		for _, b := range shown {
+			if a.nc <= b.nc {
+				if bad := subMultiset(a.rows, b.rows); bad != "" {
+					c.Violation("C05/cli/"+cs.Format+"/nodecount-not-monotone",
+						fmt.Sprintf("row %s is shown by %v but not by %v, whose node limit is not smaller", bad, a.sub.cliArgs("FILE"), b.sub.cliArgs("FILE")), cs)
+					return
+				}
+			}
+		}
+	}
+	c.Res.Hit("cligrid:monotone-checked")
+}
+
+// c05CLIGrid: for a large profile every output family with nodecount ∈ {unset, -1, 0, 1, 79, 80, 81,
+// entries−1, entries, entries+1}; the fraction mode (unset / 0 / small) rotates over families and
+// profiles so that every combination family × mode comes up over a few seeds.
+func c05CLIGrid(c *Ctx, r *Rng, canon string, entries, k int) {
+	families := []string{"text", "top", "tree", "peek", "dot", "callgrind", "traces", "topproto"}
+	for fi, format := range families {
+		counts := []int{c05Unset, -1, 0, 1, 79, 80, 81, entries - 1, entries, entries + 1}
+		if format == "callgrind" || format == "traces" || format == "peek" {
+			counts = []int{c05Unset, 0, 1, 80} // documented as never trimmed: a few settings suffice
+		}
+		cs := &c05Case{Level: "climono", Profile: canon, Format: format, Counts: counts, CumSort: r.Bool(), Gran: "functions", Req: gReq{VI: r.Intn(2)}}
+		switch (fi + k + int(c.Seed%3)) % 3 {
+		case 0:
+			cs.NoFractions = true
+			c.Res.Hit("cligrid-fractions:unset")
+		case 1:
+			cs.FracNum, cs.FracDen, cs.EdgeNum, cs.EdgeDen = 0, 1, 0, 1
+			c.Res.Hit("cligrid-fractions:0")
+		case 2:
+			cs.FracNum, cs.FracDen, cs.EdgeNum, cs.EdgeDen = 1, 512, 1, 2048
+			c.Res.Hit("cligrid-fractions:small")
+		}
+		c05Removed = false
+		c05CLIMono(c, cs)
+		c.Res.Count(canon+"cligrid"+format+fmt.Sprint(cs.NoFractions, cs.FracDen, cs.CumSort, cs.Req.VI), true)
 	}
 }
